@@ -307,6 +307,47 @@ example :
     dnamesL d.nodes = [[0]] ∧ d.edges = [] ∧ styledTop d 1 = [[0]] := by
   decide
 
+/-- **No cache.** Whatever happened before a diagram is read — graph events, display options set on the
+machine, states / transitions / callbacks added or removed, in any interleaving (the model attribute is
+fixed at construction) — the diagram read is the one of the LATEST options and the LATEST machine
+description with the styles left by the graph events alone: it equals what a machine freshly built with
+those options and that description shows for the same graph history. -/
+theorem C16_no_cache (s : Session) (evs : List Event) (roi : Option Obj)
+    (hattr : ∀ o, Event.options o ∈ evs → o.modelAttr = s.opts.modelAttr) :
+    (evs.foldl Session.apply s).view roi =
+      diagram (lastOpts s.opts evs) (lastMach s.mach evs)
+        ((graphSteps s.opts.modelAttr evs).foldl applyStep s.styles)
+        (roi.map (readState s.opts.modelAttr)) := by
+  have hl : (lastOpts s.opts evs).modelAttr = s.opts.modelAttr := by
+    clear roi
+    induction evs generalizing s with
+    | nil => rfl
+    | cons e r ih =>
+      cases e with
+      | graph g => exact ih s (fun o ho => hattr o (List.mem_cons_of_mem _ ho))
+      | machine m => exact ih s (fun o ho => hattr o (List.mem_cons_of_mem _ ho))
+      | options o =>
+        have ho : o.modelAttr = s.opts.modelAttr := hattr o (List.mem_cons_self ..)
+        have := ih { s with opts := o } (fun o' ho' => by
+          simpa [ho] using hattr o' (List.mem_cons_of_mem _ ho'))
+        simpa [lastOpts, ho] using this
+  rw [session_foldl evs s hattr]
+  simp [Session.view, hl]
+
+/-- switching conditions on after a transition was executed: the labels are those of the new option -/
+example :
+    let leaf : Nat → MState := fun n => .mk n none false [] [] .none false [] []
+    let m : Mach := { states := [leaf 0, leaf 1],
+                      trans := [{ trigger := [0, 0], source := [0], dest := some [1], conds := [2] }],
+                      initial := some [0] }
+    let s0 : Session := { opts := { nested := false, showConds := false, showAttrs := false }, mach := m,
+                          styles := ({} : Styles).setNodes [[0]] 1 }
+    let evs : List Event := [.graph (.begin [] [0] [1]), .graph (.finish [(0, [[1]])]),
+                             .options { nested := false, showConds := true, showAttrs := false }]
+    labelsAt ((evs.foldl Session.apply s0).view none).edges ([0], [1]) =
+      [{ text := [0, 0], internal := false, conds := [2], unl := [] }] := by
+  decide
+
 /-- **Regeneration.** After add_states / add_transition / remove_transition (`regen cur`) — whatever
 happened before — exactly the names of the model's state are styled active and nothing is styled
 previous; the diagram itself is a function of the current description (`diagram o m …`), so added or
